@@ -258,3 +258,35 @@ def has_silent_cycle(lts, entry):
             stack.append(node[2])
             stack.append(node[3])
     return False
+
+
+def machine_wellformed(m, entries):
+    """C02's well-formedness on a machine LTS: no reachable path runs past the last op of a routine,
+    and no cycle (reachable or not) consists of Jump steps only."""
+    for nid, node in m.items():
+        if node[0] == "tau":
+            seen = {nid}
+            cur = node[1]
+            while m[cur][0] == "tau":
+                if cur in seen:
+                    return False
+                seen.add(cur)
+                cur = m[cur][1]
+    seen = set()
+    stack = list(entries)
+    while stack:
+        n = stack.pop()
+        if n in seen:
+            continue
+        seen.add(n)
+        if n[0] == "mend":
+            return False
+        node = m[n]
+        if node[0] == "tau":
+            stack.append(node[1])
+        elif node[0] == "op":
+            stack.append(node[2])
+        elif node[0] == "test":
+            stack.append(node[2])
+            stack.append(node[3])
+    return True
